@@ -79,6 +79,7 @@ CLAIMS = {
              'tag_lookup_renders_template / expr_lookup_does_not_call; InstanceDict.__getitem__ is TRANSLATED from /repo on every '
              'run (harness/trans_ns.py -> GenNs.lean) and proved equal to the model\'s instance lookup '
              '(gen_instancedict_getitem_is_model), and so are TemplateDict.getitem (gen_templatedict_getitem_is_model) and String.__call__ (harness/trans_call.py -> GenCall.lean: gen_call_is_topCall - a new namespace is exactly callStack, the order lookup_precedence is about - and gen_call_is_callSub); TemplateDict.__getitem__, __contains__ / has_key and __len__ are TRANSLATED too (harness/trans_stack.py -> GenStack.lean: gen_subscript_is_model, gen_contains_is_model, gen_has_key_is_model = Render.hasKey, has_key_agrees_with_getitem, gen_len_is_model). Correspondence: results and call traces; oracle: winner '
+             '(gen_instancedict_getitem_is_model), and so are TemplateDict.getitem (gen_templatedict_getitem_is_model) and String.__call__ (harness/trans_call.py -> GenCall.lean: gen_call_is_topCall - a new namespace is exactly callStack, the order lookup_precedence is about - and gen_call_is_callSub); the fetch part of Var.render (name in md / md[name] / missing / KeyError / expr.eval / the null test; harness/trans_fetch.py -> GenFetch.lean) equals renderBlk on a dtml-var with missing / null (gen_var_fetch_name_is_model, gen_var_fetch_expr_is_model). Correspondence: results and call traces; oracle: winner '
              'computed from the documented order over all 128 source subsets x {plain, callable, template} (+ private names), '
              'scope-stack evaluator over random nestings of let/with/in/if/try-except with probes before/inside/after, '
              'name-vs-expression forms, re-entered templates under shadowing blocks',
@@ -294,6 +295,7 @@ CLAIMS = {
              'unquote_inverts_quote_partial, finding_C15_double_unquote; Var.render is TRANSLATED from /repo on every run '
              '(harness/trans_var.py -> GenVar.lean): gen_var_render_stages (the order of the stages as the source has it), '
              'gen_truncate_is_model (the size / etc block, statement by statement, equals VarPipe.truncate); '
+             'gen_var_fetch_is_model / gen_var_fetch_expr_is_model (the fetch part - missing, KeyError, the null test - statement by statement, harness/trans_fetch.py -> GenFetch.lean, equals VarPipe.render of a tag in the full form; full_form_of_missing_or_null); '
              'Var.__init__ is TRANSLATED too (harness/trans_varinit.py -> GenVarInit.lean): gen_var_form_is_model (the if-chain that '
              'stores simple_form, test by test, equals VarPipe.simpleKind), gen_var_modifiers_is_model (the filter of self.modifiers equals applied); '
              'correspondence on random specs x values '
